@@ -127,13 +127,19 @@ pub fn eval_static(prop: &str, case: &StaticCase, r: &mut RunResult) {
 /// The exp encoding enumerates the cartesian product of the defender sets of each argument: the
 /// workload keeps that product small (the blow-up itself is by design, not a defect).
 pub fn max_defender_product(store: &RefStore) -> u64 {
-    let (af, _, _) = store.to_ref();
+    // the exp encoder expands, per argument, the product of its attackers' defender lists; the lists
+    // hold one ENTRY per declaration, so repeated attack lines count with their multiplicity
+    let mult = |x: usize, y: usize| 1 + store.repeats.get(&(x, y)).copied().unwrap_or(0) as u64;
     let mut worst = 1u64;
-    for a in 0..af.n {
+    for (_, a) in store.live.iter() {
         let mut p = 1u64;
-        for b in 0..af.n {
-            if af.attackers[a] >> b & 1 == 1 {
-                p = p.saturating_mul(af.attackers[b].count_ones() as u64);
+        for (b, t) in store.attacks.iter() {
+            if t != a {
+                continue;
+            }
+            let defenders: u64 = store.attacks.iter().filter(|(_, t2)| t2 == b).map(|(c, _)| mult(*c, *b)).sum();
+            for _ in 0..mult(*b, *a) {
+                p = p.saturating_mul(defenders.max(1));
             }
         }
         worst = worst.max(p);
